@@ -231,3 +231,32 @@ M("hsl-lightness-branch", ["C13"], "hsl conversion uses the wrong branch at l = 
 M("saturation-getter-denominator", ["C13"], "saturation getter uses the wrong denominator for light colours", ("            return delta / (2.0 - max_v - min_v)", "            return delta / (2.0 - max_v)"))
 M("bgr-getter-swapped", ["C13"], "bgr getter returns rgb order", ("        return self.blue << 16 | self.green << 8 | self.red", "        return self.red << 16 | self.green << 8 | self.blue"))
 M("keyword-case-sensitive", ["C13"], "keywords only recognised in lower case", ('            v = v.replace(" ", "").lower()', '            v = v.replace(" ", "")'))
+
+# ---- documents: geometry (C03) -----------------------------------------------------------------------------
+M("viewport-not-restored", ["C03"], "the viewport size of a nested svg stays in force after it closes (the repaired defect)",
+  ("                context, values, width, height = stack.pop()\n            elif event == \"start-ns\":", "                context, values, _w, _h = stack.pop()\n            elif event == \"start-ns\":"))
+M("svg-geometry-inherited", ["C03"], "x/y/width/height of an svg are handed down to its children (the repaired defect)",
+  ("                        SVG_ATTR_WIDTH,\n                        SVG_ATTR_HEIGHT,\n                    ):\n                        if attr in values:\n                            del values[attr]\n                    if context is None:", "                        SVG_ATTR_WIDTH,\n                        SVG_ATTR_HEIGHT,\n                    ):\n                        if attr in values and False:\n                            del values[attr]\n                    if context is None:"))
+M("nested-svg-xy-ignored", ["C03"], "a nested svg without viewBox ignores x and y (the repaired defect)",
+  ("                    elif context is not None and (s.x != 0 or s.y != 0):", "                    elif False:"))
+M("use-translate-before-transform", ["C03"], "use x/y translate is put in front of the inherited transform",
+  ('                values[SVG_ATTR_TRANSFORM] = "%s translate(%s, %s)" % (\n                    values[SVG_ATTR_TRANSFORM],\n                    self.x,\n                    self.y,\n                )', '                values[SVG_ATTR_TRANSFORM] = "translate(%s, %s) %s" % (\n                    self.x,\n                    self.y,\n                    values[SVG_ATTR_TRANSFORM],\n                )'))
+M("defs-rendered", ["C03"], "content of defs is appended to the rendered tree",
+  ("                elif SVG_TAG_DEFS == tag:\n                    s = Group(values)\n                    context = s  # Non-Rendered", "                elif SVG_TAG_DEFS == tag:\n                    s = Group(values)\n                    if context is not None:\n                        context.append(s)\n                    context = s"))
+M("display-not-inherited", ["C03", "C14"], "display is treated as a non-inherited property: children of a display:none container are rendered",
+  ("                    continue  # Values has a display=none. Do not render anything. No Shadow Dom.", "                    pass  # Values has a display=none. Do not render anything. No Shadow Dom."),
+  ("                # Non-propagating values.\n", "                # Non-propagating values.\n                values.pop(SVG_ATTR_DISPLAY, None)\n"))
+M("transform-prepended", ["C03"], "an element's transform is concatenated in front of the inherited one",
+  ('                        attributes[SVG_ATTR_TRANSFORM] = (\n                            values[SVG_ATTR_TRANSFORM]\n                            + " "\n                            + attributes[SVG_ATTR_TRANSFORM]\n                        )', '                        attributes[SVG_ATTR_TRANSFORM] = (\n                            attributes[SVG_ATTR_TRANSFORM]\n                            + " "\n                            + values[SVG_ATTR_TRANSFORM]\n                        )'))
+M("line-y1-percent-of-width", ["C03"], "a line's y1 percentage is resolved against the viewport width",
+  ("            self.y1 = self.y1.value(relative_length=height, **kwargs)", "            self.y1 = self.y1.value(relative_length=width, **kwargs)"))
+M("viewport-transform-before-own", ["C03"], "the viewport transform of an svg is applied outside its transform attribute",
+  ('                            values[SVG_ATTR_TRANSFORM] += " " + viewport_transform\n                        else:\n                            values[SVG_ATTR_TRANSFORM] = viewport_transform\n                        values["viewport_transform"]', '                            values[SVG_ATTR_TRANSFORM] = viewport_transform + " " + values[SVG_ATTR_TRANSFORM]\n                        else:\n                            values[SVG_ATTR_TRANSFORM] = viewport_transform\n                        values["viewport_transform"]'))
+M("use-children-lose-ppi", ["C03"], "shapes are rendered with the default ppi",
+  ("                    s.render(ppi=ppi, width=width, height=height)\n                    if reify:\n                        s.reify()\n                    if s.is_degenerate():", "                    s.render(ppi=DEFAULT_PPI, width=width, height=height)\n                    if reify:\n                        s.reify()\n                    if s.is_degenerate():"))
+M("rect-reify-skips-radii", ["C03", "C02"], "Rect.reify forgets to scale the corner radii",
+  ("            self.rx = scale_x * self.rx\n            self.ry = scale_y * self.ry\n            self.width = scale_x * self.width", "            self.width = scale_x * self.width"))
+M("circle-percent-per-axis", ["C03"], "circle r percent resolved per axis again (the repaired defect)",
+  ('            and self.rx.units == "%"\n            and isinstance(width, (int, float))', '            and self.rx.units == "%%"\n            and isinstance(width, (int, float))'))
+M("rect-clamp-before-units", ["C03"], "corner radii with units are never clamped (the repaired defect)",
+  ("        # Sizes or radii that carried units could not be compared before: clamp the radii now.\n        self._validate_rect()\n", ""))
